@@ -12,8 +12,7 @@ export VERIF_SIM=$W/sim VERIF_REPO=$W/repo VERIF_EVIDENCE_DIR=$W/evidence VERIF_
 ids="$@"; [ -z "$ids" ] && ids=$(ls /verif/seeded)
 ok=0; bad=0
 for id in $ids; do
-  prop=$(python3 -c "import json;print(json.load(open('/verif/seeded/$id/meta.json'))['property'])")
-  case $id in G06-2|G01-2) prop=C07;; esac
+  prop=$(python3 -c "import json;d=json.load(open('/verif/seeded/$id/meta.json'));print(d.get('regress_with', d['property']))")
   git -C $W/repo checkout -q -- . ; git -C $W/repo apply /verif/seeded/$id/patch.diff || { echo "$id: PATCH DOES NOT APPLY"; bad=$((bad+1)); continue; }
   timeout 1500 /verif/check $prop --tier quick > $W/out-$id.txt 2>&1; rc=$?
   if [ $rc = 1 ] && grep -q "^VIOLATION property=$prop" $W/out-$id.txt; then ok=$((ok+1)); echo "$id: caught by $prop ($(grep -m1 '^#   class=' $W/out-$id.txt | cut -c5-70))"; else bad=$((bad+1)); echo "$id: NOT CAUGHT by $prop (exit $rc)"; fi
